@@ -411,7 +411,10 @@ type docOpts struct {
 	dups    bool // keys drawn from a small pool so that duplicates happen
 	numeric bool // mostly numbers
 	force   bool // the top levels are containers
+	simpleNums bool // numbers every mode accepts (no overflow, no range error)
 }
+
+var simpleNums = []string{"0", "1", "-1", "42", "1.5", "-0", "1e2", "2.5e-3", "9007199254740993", "9223372036854775807", "10000000000000000000", "0.1", "1E+2", "123456789.125"}
 
 func genDocValue(t *rapid.T, depth int, budget *int, o docOpts, b *strings.Builder) {
 	*budget--
@@ -433,7 +436,11 @@ func genDocValue(t *rapid.T, depth int, budget *int, o docOpts, b *strings.Build
 	case c < 3:
 		b.WriteString("false")
 	case c < 7:
-		b.WriteString(genNumber(t))
+		if o.simpleNums {
+			b.WriteString(rapid.SampledFrom(simpleNums).Draw(t, "snum"))
+		} else {
+			b.WriteString(genNumber(t))
+		}
 	case c < 10:
 		b.WriteString(genDocString(t, o.lenient))
 	case c < 15:
